@@ -38,6 +38,8 @@ def run(ctx, prop):
             elif case["mode"] == "tplx":
                 slim = {"id": case["id"], "form": case["form"], "template": "".join(case["raw"]), "out": "".join(case["out"]),
                         "vals": {"".join(v["name"]): "".join(v["val"]) for v in case["vals"]}}
+            elif case["mode"] == "selfx":
+                slim = {"id": case["id"], "src": "".join(case["src"]), "matched": "".join(case["matched"]), "out": "".join(case["out"])}
             elif case["mode"] == "tpl":
                 slim = {"id": case["id"], "lang": case["lang"], "pattern": case["pattern"], "template": "".join(case["raw"]),
                         "src": "".join(case["src"])[:1500], "site": case["site"], "bind": case["bind"], "out": "".join(case["out"])}
@@ -51,7 +53,11 @@ def run(ctx, prop):
     if prop == "C07":
         nt = set()
         tx = [x for x in recs if x["mode"] == "tplx"]
-        recs = [x for x in recs if x["mode"] != "tplx"]
+        sx = [x for x in recs if x["mode"] == "selfx"]
+        ctx.cov["self_rewrites_through_identity_transforms"] = len(sx)
+        for x in sx:
+            nt.add(("selfx", "".join(x["src"])))
+        recs = [x for x in recs if x["mode"] not in ("tplx", "selfx")]
         ctx.cov["templates_with_transformed_variables"] = len(tx)
         for x in tx:
             nt.add(("tplx", x["form"], "".join(x["raw"]), "".join(x["out"])))
